@@ -116,7 +116,9 @@ fn engine_shapes(args: &Args) -> i32 {
     let mut total: u64 = 0;
     let mut take = |idx: &mut u64| -> bool {
         *idx += 1;
-        let h = (*idx).wrapping_mul(0x9E37_79B9_7F4A_7C15).wrapping_add(seed.wrapping_mul(0xD1B5_4A32_D192_ED03));
+        let h = (*idx)
+            .wrapping_mul(0x9E37_79B9_7F4A_7C15)
+            .wrapping_add(seed.wrapping_mul(0xD1B5_4A32_D192_ED03));
         let h = h ^ (h >> 29);
         (*idx % nshards == shard) && (frac == 1 || (h >> 7) % frac == 0)
     };
@@ -140,7 +142,12 @@ fn engine_shapes(args: &Args) -> i32 {
                             }
                             total += 1;
                             let res = dispatch_b(hi, ti, len, c, r, &mut st);
-                            report(res, &mut st, &mut nviol, format!("b hi={} ti={} len={} c={} r={}", hi, ti, len, c, r));
+                            report(
+                                res,
+                                &mut st,
+                                &mut nviol,
+                                format!("b hi={} ti={} len={} c={} r={}", hi, ti, len, c, r),
+                            );
                         }
                     }
                 }
@@ -157,7 +164,12 @@ fn engine_shapes(args: &Args) -> i32 {
                         }
                         total += 1;
                         let res = dispatch_c(ti, len, c, r, &mut st);
-                        report(res, &mut st, &mut nviol, format!("c ti={} len={} c={} r={}", ti, len, c, r));
+                        report(
+                            res,
+                            &mut st,
+                            &mut nviol,
+                            format!("c ti={} len={} c={} r={}", ti, len, c, r),
+                        );
                     }
                 }
             }
@@ -182,7 +194,12 @@ fn engine_shapes(args: &Args) -> i32 {
                     }
                     total += 1;
                     let res = sized_list!(call_a, si, c, r, &mut st);
-                    report(res, &mut st, &mut nviol, format!("a si={} c={} r={}", si, c, r));
+                    report(
+                        res,
+                        &mut st,
+                        &mut nviol,
+                        format!("a si={} c={} r={}", si, c, r),
+                    );
                 }
             }
         }
@@ -197,9 +214,17 @@ fn engine_shapes(args: &Args) -> i32 {
                             continue;
                         }
                         total += 1;
-                        let script = seed.wrapping_mul(1000).wrapping_add(s).wrapping_add((ai * NS + bi) as u64 * 7919);
+                        let script = seed
+                            .wrapping_mul(1000)
+                            .wrapping_add(s)
+                            .wrapping_add((ai * NS + bi) as u64 * 7919);
                         let res = sized_list!(call_u, ai, bi, v, script, &mut st);
-                        report(res, &mut st, &mut nviol, format!("u ai={} bi={} v={} script={}", ai, bi, v, script));
+                        report(
+                            res,
+                            &mut st,
+                            &mut nviol,
+                            format!("u ai={} bi={} v={} script={}", ai, bi, v, script),
+                        );
                     }
                 }
             }
